@@ -36,6 +36,22 @@ def main():
             text = subprocess.check_output(["git", "-C", REPO, "show", "%s:%s" % (m["base"], m["file"])], text=True)
         else:
             text = open(src).read()
+        if m.get("patch"):
+            # apply a unified diff (relative to /repo) to a scratch copy of the file
+            import tempfile
+            td = tempfile.mkdtemp(prefix="mutpatch", dir="/dev/shm")
+            dstf = os.path.join(td, m["file"])
+            os.makedirs(os.path.dirname(dstf), exist_ok=True)
+            open(dstf, "w").write(text)
+            pr = subprocess.run(["patch", "-p1", "-s", "-d", td, "-i", os.path.join(VERIF, m["patch"])],
+                                stdout=subprocess.PIPE, stderr=subprocess.STDOUT, text=True)
+            if pr.returncode != 0:
+                print("MUTANT %s: patch failed: %s" % (m["name"], pr.stdout[-300:]))
+                out.append(dict(name=m["name"], result="patch-failed"))
+                shutil.rmtree(td, ignore_errors=True)
+                continue
+            text = open(dstf).read()
+            shutil.rmtree(td, ignore_errors=True)
         if m.get("old") is not None:
             n = text.count(m["old"])
             if n != m.get("count", 1):
